@@ -210,6 +210,151 @@ fn first_literal(src: &str) -> Option<(usize, usize, String)> {
     None
 }
 
+/// First literal of a source that can be stored in the event and read back with its type known to the compiler:
+/// `"..."` (no escapes/templates), `s'...'`, `t'...'`. Returns (start, end).
+fn first_storable_literal(src: &str) -> Option<(usize, usize)> {
+    storable_literal_from(src, 0)
+}
+
+/// Bare integer / float / boolean literals outside strings, as (start, end).
+fn scalar_literals(src: &str) -> Vec<(usize, usize)> {
+    let b = src.as_bytes();
+    let mut out = vec![];
+    let mut i = 0;
+    while i < b.len() {
+        match b[i] {
+            b'#' => {
+                while i < b.len() && b[i] != b'\n' {
+                    i += 1;
+                }
+            }
+            b'"' => {
+                i += 1;
+                while i < b.len() && b[i] != b'"' {
+                    if b[i] == b'\\' {
+                        i += 1;
+                    }
+                    i += 1;
+                }
+                i += 1;
+            }
+            b'\'' => {
+                i += 1;
+                while i < b.len() && b[i] != b'\'' {
+                    if b[i] == b'\\' {
+                        i += 1;
+                    }
+                    i += 1;
+                }
+                i += 1;
+            }
+            c if c.is_ascii_digit() && (i == 0 || !(b[i - 1].is_ascii_alphanumeric() || b[i - 1] == b'_' || b[i - 1] == b'.' || b[i - 1] == b'[')) => {
+                let start = i;
+                while i < b.len() && (b[i].is_ascii_digit() || b[i] == b'.' || b[i] == b'_') {
+                    i += 1;
+                }
+                if i < b.len() && (b[i].is_ascii_alphabetic() || b[i] == b']') {
+                    continue;
+                }
+                out.push((start, i));
+            }
+            b't' | b'f' if (i == 0 || !(b[i - 1].is_ascii_alphanumeric() || b[i - 1] == b'_' || b[i - 1] == b'.')) => {
+                let word = if src[i..].starts_with("true") { 4 } else if src[i..].starts_with("false") { 5 } else { 0 };
+                if word > 0 && !src[i + word..].starts_with(|c: char| c.is_ascii_alphanumeric() || c == '_' || c == ':' || c == '\'') {
+                    out.push((i, i + word));
+                    i += word;
+                } else {
+                    i += 1;
+                }
+            }
+            _ => i += 1,
+        }
+    }
+    out
+}
+
+fn storable_literal_from(src: &str, from: usize) -> Option<(usize, usize)> {
+    let b = src.as_bytes();
+    let mut i = from;
+    while i < b.len() {
+        match b[i] {
+            b'#' => {
+                while i < b.len() && b[i] != b'\n' {
+                    i += 1;
+                }
+            }
+            b'"' => {
+                let start = i;
+                i += 1;
+                let mut ok = true;
+                while i < b.len() && b[i] != b'"' {
+                    if b[i] == b'\\' || b[i] == b'{' {
+                        ok = false;
+                    }
+                    if b[i] == b'\\' {
+                        i += 1;
+                    }
+                    i += 1;
+                }
+                if i < b.len() && ok && i > start + 1 {
+                    return Some((start, i + 1));
+                }
+                i += 1;
+            }
+            b's' | b'r' | b't' if i + 1 < b.len() && b[i + 1] == b'\'' && (i == 0 || !(b[i - 1].is_ascii_alphanumeric() || b[i - 1] == b'_')) => {
+                let kind = b[i];
+                let start = i;
+                i += 2;
+                while i < b.len() && b[i] != b'\'' {
+                    if b[i] == b'\\' {
+                        i += 1;
+                    }
+                    i += 1;
+                }
+                if (kind == b's' || kind == b't') && i < b.len() && i > start + 2 {
+                    return Some((start, i + 1));
+                }
+                i += 1;
+            }
+            _ => i += 1,
+        }
+    }
+    None
+}
+
+/// "Typed lift": `.vin = <literal>` followed by the example with that literal replaced by `.vin`. The compiler then
+/// knows the exact type of `.vin`, so the function receives it without a runtime check; only a target that rejects the
+/// write or the read can make the value differ from the type (workload of C17: "compiler guarantees" that `.expect`).
+pub fn typed_lifted(cases: &[Case]) -> Vec<Case> {
+    let mut out = vec![];
+    for c in cases {
+        if !c.label.starts_with("A:") || c.skip {
+            continue;
+        }
+        // every string / timestamp literal (up to 5) and every bare scalar literal (up to 4), one case each
+        let mut spots: Vec<(usize, usize)> = vec![];
+        let mut from = 0;
+        while let Some((a, b)) = storable_literal_from(&c.program.source, from) {
+            spots.push((a, b));
+            from = b;
+            if spots.len() >= 5 {
+                break;
+            }
+        }
+        spots.extend(scalar_literals(&c.program.source).into_iter().take(4));
+        for (k, (a, b)) in spots.into_iter().enumerate() {
+            let lit = &c.program.source[a..b];
+            let mut case = c.clone();
+            case.label = format!("T:{}#{k}", &c.label[2..]);
+            case.program.source = format!(".vin = {lit}\n{}.vin{}", &c.program.source[..a], &c.program.source[b..]);
+            case.program.label = case.label.clone();
+            case.tags.push("typed-lift".into());
+            out.push(case);
+        }
+    }
+    out
+}
+
 /// "Lift" the first string literal of each maintainers' example into the event (`string!(.vin)`), and give the
 /// program the literals of the other examples of the same function (and a reversed one) as further events. This is
 /// the workload for input-dependent shared state: memos, caches and scratch buffers inside a function expression
@@ -569,6 +714,63 @@ pub fn run(ctx: &Ctx) -> ! {
         }
     }
 
+    // --- long-history worlds: one thread feeds one shared program hundreds of DISTINCT inputs and then the first ones
+    // again (bounded caches, thread-local tables, counters that change behaviour after N calls, amortised rebuilds) ----
+    let mut long_history: (Vec<SessionSpec>, Vec<Vec<(usize, usize)>>) = (vec![], vec![]);
+    {
+        let n_inputs = if ctx.quick() { 300 } else { 1100 };
+        let cands: Vec<usize> = (0..items.len())
+            .filter(|i| items[*i].case.tags.iter().any(|t| t == "lifted") && items[*i].events[0].value.get("vin").and_then(|v| v.as_str()).is_some())
+            .filter(|i| g.index.get(&(*i, 0)).and_then(|ix| g.results[*ix].as_ref().ok()).is_some_and(|r| r.worlds.first().is_some_and(|w| !w.obs.iter().any(|o| o.outcome.starts_with("NOPROGRAM")))))
+            .filter(|i| !ctx.quick() || mix(ctx.seed, *i as u64) % 2 == 0)
+            .collect();
+        let mut worlds = vec![];
+        for &i in &cands {
+            let it = &items[i];
+            let base = it.events[0].value.get("vin").and_then(|v| v.as_str()).unwrap_or("").to_string();
+            let mut events = vec![];
+            for k in 0..n_inputs {
+                let mut e = it.events[0].clone();
+                // distinct inputs that keep the shape of the original literal: a numeric run in it is renumbered,
+                // otherwise a suffix is added
+                let digits: Option<(usize, usize)> = base.char_indices().find(|(_, c)| c.is_ascii_digit()).map(|(a, _)| {
+                    let b = base[a..].find(|c: char| !c.is_ascii_digit()).map(|x| a + x).unwrap_or(base.len());
+                    (a, b)
+                });
+                let v = match digits {
+                    Some((a, b)) if k > 0 => format!("{}{}{}", &base[..a], k, &base[b..]),
+                    _ if k > 0 => format!("{base}{k}"),
+                    _ => base.clone(),
+                };
+                if let Some(o) = e.value.as_object_mut() {
+                    o.insert("vin".into(), serde_json::Value::String(v));
+                }
+                events.push(e);
+            }
+            let mut ops: Vec<Op> = (0..n_inputs).map(|e| Op::Run { prog: 0, event: e, fresh_runtime: true, faults: FaultPlan::default(), tag: String::new() }).collect();
+            for e in (0..12).chain(n_inputs - 4..n_inputs) {
+                ops.push(Op::Run { prog: 0, event: e, fresh_runtime: true, faults: FaultPlan::default(), tag: String::new() });
+            }
+            worlds.push(WorldSpec {
+                id: format!("long-{i}"),
+                clock: Some(T0),
+                coord_hash_seed: 1,
+                programs: vec![it.case.program.clone()],
+                events,
+                nodes: vec![NodeSpec { tz: "UTC".into(), hash_seed: 1, own_clone: false, ref_backing: false, ops }],
+                sched: SchedSpec { policy: Policy::Serial, seed: 0, max_yields: 10_000_000 },
+                files: vec![],
+                monitors: vec![],
+                fresh_threads: false,
+            });
+        }
+        for chunk in worlds.chunks(4) {
+            long_history.0.push(SessionSpec { seed: ctx.seed, tz_env: None, layout_salt: 0, worlds: chunk.to_vec() });
+            // the golden of the original input is the only external expectation; the rest is self-consistency
+            long_history.1.push(chunk.iter().map(|w| (w.id[5..].parse::<usize>().unwrap(), 0)).collect());
+        }
+    }
+
     // order: the parts that must never be skipped first (amplifier sweep, one concurrent batch), then the rest
     // in deadline-checked chunks, so that a slow machine shortens the exploration but never empties a phase
     let _ = judge_batch(ctx, &sweep_hash.0, &sweep_hash.1, &g, &mut rep, &mut ev);
@@ -580,6 +782,13 @@ pub fn run(ctx: &Ctx) -> ! {
         ev.evaluations += ev.worlds - before;
         ev.extra.insert("contention_worlds".into(), (ev.worlds - before).into());
         println!("contention worlds: {} ({:.1}s)", ev.worlds - before, ctx.start.elapsed().as_secs_f64());
+    }
+    {
+        let before = ev.worlds;
+        let _ = judge_batch(ctx, &long_history.0, &long_history.1, &g, &mut rep, &mut ev);
+        ev.evaluations += ev.worlds - before;
+        ev.extra.insert("long_history_worlds".into(), (ev.worlds - before).into());
+        println!("long-history worlds: {} ({:.1}s)", ev.worlds - before, ctx.start.elapsed().as_secs_f64());
     }
     concurrent_batch(ctx, &mut rep, &mut ev, &mut done, &mut batch_no, &mut samples);
     println!("first concurrent batch: {done} sessions ({:.1}s)", ctx.start.elapsed().as_secs_f64());
